@@ -173,6 +173,12 @@ fn explore_program(prop: &str, idx: usize, e: &Entry, first: Option<usize>, alph
             let gobs = (e.run)(&gsrc);
             t.hit("grouped_values_inputs");
             judge(prop, idx, &e.prog, &items, &gsrc, &exp, &gobs, t);
+            // ... and in two nested groups, for the shortest sequences
+            if seq.len() <= 2 {
+                let g2 = format!("{src}{}", crate::run::GROUPED2);
+                let o2 = (e.run)(&g2);
+                judge(prop, idx, &e.prog, &items, &g2, &exp, &o2, t);
+            }
         }
         t.states += 1;
         if !seq.is_empty() {
@@ -247,6 +253,14 @@ pub fn hostile_items(prog: &Program) -> Vec<String> {
     for n in &names {
         for b in &bodies {
             v.push(format!("{n}{b}"));
+        }
+    }
+    // long unknown names, ASCII and multi-byte, around 16 / 32 / 64 / 128 / 256 bytes
+    for n in [16usize, 21, 22, 32, 33, 64, 65, 128, 129, 256] {
+        for unit in ["x", "ü", "名"] {
+            v.push(format!("{} = 1", unit.repeat(n)));
+            v.push(format!("a{}", unit.repeat(n)));
+            v.push(format!("q{}(x = 1)", unit.repeat(n)));
         }
     }
     v.push("\"lit\"".into());
@@ -834,8 +848,11 @@ fn explore_attrs(idx: usize, e: &Entry, first: Option<usize>, thorough: bool, t:
                 Obs::NoParse(_) => t.hit("generator_unparseable"),
             }
             // the single attribute with every value forwarded in an invisible group
-            if base_src.contains(" = ") {
-                let gsrc = format!("{base_src}{}", crate::run::GROUPED);
+            for marker in [crate::run::GROUPED, crate::run::GROUPED2] {
+                if !base_src.contains(" = ") {
+                    continue;
+                }
+                let gsrc = format!("{base_src}{marker}");
                 let gobs = (e.run)(&gsrc);
                 t.evaluations += 1;
                 t.hit("grouped_values_inputs");
@@ -920,6 +937,12 @@ fn explore_attrs(idx: usize, e: &Entry, first: Option<usize>, thorough: bool, t:
                                 let mut with = attrs.clone();
                                 with.insert(pos, f.to_string());
                                 check(&with, &base_key, "foreign attribute interleaved", &items, t);
+                                // the same attribute twice in a row (multiplicity is kept)
+                                if mask == 0 {
+                                    let mut twice = with.clone();
+                                    twice.insert(pos, f.to_string());
+                                    check(&twice, &base_key, "the same foreign attribute twice in a row", &items, t);
+                                }
                                 if thorough && mask == 0 && asg == 0 {
                                     for g in &foreign {
                                         let mut two = with.clone();
